@@ -131,7 +131,7 @@ var protoTinySources = []string{"", "x", "@", "1", "\"", "#", "\n", "1.", "!", "
 	"eval 1+", "def t{}", "def t {x=1}", "1e", "0x", "\"a\"", "\"a", "12ab", "-", "->", "=", "==", "!=", ";", "}", "print \"é\"", "# c", "\r\n", "var a=1 print a"}
 
 // protoClasses are the classes protoBuildSource is asked for.
-var protoClasses = []string{"valid", "valid", "valid", "valid", "syntax-early", "syntax-late", "syntax-many", "lexfail-early", "lexfail-early", "lexfail-late", "lexfail-raw", "truncated", "tiny"}
+var protoClasses = []string{"valid", "valid", "valid", "valid", "syntax-early", "syntax-late", "syntax-many", "lexfail-early", "lexfail-early", "lexfail-late", "lexfail-raw", "truncated", "tiny", "limits"}
 
 // protoBuildSource makes one input.  want is one of protoClasses; the Class/Where
 // fields of the result say what the input really is, as judged by Parse.
@@ -144,6 +144,25 @@ func protoBuildSource(r *rand.Rand, want string, stats map[string]int) *protoSrc
 		ps.refParse()
 		if ps.Class != "valid" {
 			ps.Where = "early"
+		}
+		return ps
+	}
+	if want == "limits" {
+		// a program at or beyond an implementation limit (variables, nesting, operand depth, jump
+		// distance), followed by more text: the pipeline must wind down as after any other error
+		lad := limitLadder()
+		s := lad[r.Intn(len(lad))]
+		for len(s) > 60000 {
+			s = lad[r.Intn(len(lad))]
+		}
+		if r.Intn(3) != 0 {
+			s += "\n" + protoValidSource(r, 200+r.Intn(6000), stats)
+		}
+		ps.Src = []byte(s)
+		ps.Inject = "limits"
+		ps.refParse()
+		if ps.Class != "valid" {
+			ps.Where = "late"
 		}
 		return ps
 	}
